@@ -58,6 +58,7 @@ DevOrder == {"ConformerOrderLost"}
 DevStaleBond == {"StaleBondTokenCache"}
 DevStaleAtom == {"StaleAtomTokenCache"}
 DevParentIdx == {"EndpointsViaParentIndex"}
+DevMemo == {"ReaderMemoFromHistory"}
 EditB == {"Double", "Aromatic"}
 NoPhase == {}
 AliasTwo == {"promol", "dropped"}     \* model checking: "struct" behaves like "promol", "view" changes no bookkeeping
